@@ -52,6 +52,30 @@ def translate():
                   "size": "(o_ofnat o size)"}, where=w)
     position = tr3.num(st.value)
     i += 1
+    # optional clip: positions = np.minimum(positions, np.nextafter((np.arange(size) + 1.0) / size, 0.0))
+    clipped = False
+    cell_end = "o_prev o (o_div o (o_add o (o_ofnat o i) (o_one o)) (o_ofnat o size))"
+    st = body[i]
+    if isinstance(st, ast.Assign) and ast.unparse(st.targets[0]) == "positions":
+        v = st.value
+        need(isinstance(v, ast.Call) and ast.unparse(v.func) == "np.minimum" and len(v.args) == 2 and not v.keywords
+             and ast.unparse(v.args[0]) == "positions", st, "clip of the positions")
+        na = v.args[1]
+        need(isinstance(na, ast.Call) and ast.unparse(na.func) == "np.nextafter" and len(na.args) == 2 and not na.keywords
+             and ast.unparse(na.args[1]) in ("0.0", "0"), na, "nextafter towards zero")
+        inner = ExprTr({"np.arange(size)": "(o_ofnat o i)", "size": "(o_ofnat o size)"}, where=w).num(na.args[0])
+        cell_end = f"o_prev o ({inner})"
+        clipped = True
+        i += 1
+    # optional bound at the last non-zero weight
+    last_bound = False
+    if isinstance(body[i], ast.Assign) and ast.unparse(body[i].targets[0]) == "nonzero":
+        need(ast.unparse(body[i].value).replace(" ", "") == "np.flatnonzero(weights)", body[i], "non-zero weights")
+        st = body[i + 1]
+        need(isinstance(st, ast.Assign) and ast.unparse(st.targets[0]) == "last"
+             and ast.unparse(st.value).replace(" ", "") == "nonzero[-1]iflen(nonzero)>0elselen(weights)-1", st, "last non-zero index")
+        last_bound = True
+        i += 2
     # j = 0 ; cumulative_sum = weights[0] ; indeces = np.empty(...)
     inits = {}
     while i < len(body) and isinstance(body[i], ast.Assign):
@@ -79,7 +103,7 @@ def translate():
         a, b = test.values
         bs = {ast.unparse(a).replace(" ", ""), ast.unparse(b).replace(" ", "")}
         guard = [x for x in (a, b) if ast.unparse(x).replace(" ", "") in
-                 ("j<len(weights)-1", "j+1<len(weights)", "j<weights.size-1", "j<n_weights-1")]
+                 (("j<last",) if last_bound else ("j<len(weights)-1", "j+1<len(weights)", "j<weights.size-1", "j<n_weights-1"))]
         need(len(guard) == 1, test, "inner loop bound")
         bounded = True
         test = a if guard[0] is b else b
@@ -144,6 +168,9 @@ Definition j_init : nat := {j_init}.
 Definition cum_init_index : nat := {cum_init_index}.
 Definition j_incr : nat := {j_incr}.
 Definition loop_bounded : bool := {str(bounded).lower()}.
+Definition loop_bound_is_last_nonzero : bool := {str(bounded and last_bound).lower()}.
+Definition cell_end {{T}} (o : Ops T) (size i : nat) : T := {cell_end}.
+Definition positions_clipped_by_minimum : bool := {str(clipped).lower()}.
 Definition seeds_only_on_request : bool := {str(seeds_arg).lower()}.
 (* Resampler.run: mult -> np.random.choice(arange(len(weights)), size=n_particles, replace=True, p=weights);
                   syst -> systematic_resample(n_particles, weights=weights) *)
@@ -157,7 +184,13 @@ Definition dispatch_syst_uses_full_weights_and_n_particles : bool := true.
 def impl_sysres(n, w, u0):
     from tempest import tools
     orig = np.random.random
-    np.random.random = lambda *a, **k: u0
+    def fake(*a, **k):
+        size = a[0] if a else k.get("size")
+        if size is None:
+            return u0
+        # a vector of draws was requested: give each element its own (deterministic) value, the first being u0
+        return np.asarray([(u0 + 0.6180339887498949 * t) % 1.0 for t in range(int(np.prod(size)))]).reshape(size)
+    np.random.random = fake
     try:
         try:
             out = tools.systematic_resample(n, np.array(w, dtype=float))
@@ -276,7 +309,7 @@ def check_property_on_output(run, n, w, u0, out, where):
 def model_cases_src(cases):
     items = []
     for (n, w, s, u0) in cases:
-        items.append(f"(sysres_with_sum FOps true {n}%nat {flist(w)} {fhex(s)} {fhex(SQRTEPS)} {fhex(u0)})")
+        items.append(f"(sysres2_with_sum FOps true {n}%nat {flist(w)} {fhex(s)} {fhex(SQRTEPS)} {fhex(u0)})")
     body = ";\n  ".join(items)
     return f"""From Coq Require Import List PrimFloat.
 From Tempest Require Import Base.Ops Model.Resample.
@@ -305,6 +338,16 @@ def correspond(run: Run, tier, rng):
         (3, [0.0, 0.5, 0.5], 0.0),
         (4, [0.25, 0.5, 0.25], 0.0),
         (8, [0.125, 0.375, 0.5], 0.5),
+        # offsets within rounding distance of 1 (found by the thorough sweep): u0 + i rounds up to i + 1, so a tooth used to
+        # land on the next cell boundary -- a trailing zero-weight index selected, or one copy too few
+        (7, [1.0, 0.0], float(np.nextafter(1.0, 0.0))),
+        (2, [1.0, 0.0], float(np.nextafter(1.0, 0.0))),
+        (7, [1.0, 0.0, 0.0], float(np.nextafter(1.0, 0.0))),
+        (16, [0.5, 0.5], float(np.nextafter(1.0, 0.0))),
+        (64, [0.125] * 8, float(np.nextafter(1.0, 0.0))),
+        (4, [0.0, 0.5, 0.0, 0.5, 0.0], float(np.nextafter(1.0, 0.0))),
+        # a cumulative sum that ends below the last tooth, with trailing zeros
+        (5, [0.5, 0.5 - 2.0 ** -30, 0.0, 0.0], 1 - 2.0 ** -40),
     ]
     for (n, w, u0) in corpus:
         cases.append((n, w, float(np.sum(np.array(w))), u0))
@@ -471,7 +514,7 @@ def dispatch_check(run: Run, tier, rng):
             items.append(f"(map (choice_idx FOps {flist(w)}) {flist(r)})")
         else:
             s = float(np.sum(np.array(w)))
-            items.append(f"(match sysres_with_sum FOps true {len(idx)}%nat {flist(w)} {fhex(s)} {fhex(SQRTEPS)} {fhex(r[0])} with Some l => l | None => [] end)")
+            items.append(f"(match sysres2_with_sum FOps true {len(idx)}%nat {flist(w)} {fhex(s)} {fhex(SQRTEPS)} {fhex(r[0])} with Some l => l | None => [] end)")
     src = f"""From Coq Require Import List PrimFloat.
 From Tempest Require Import Base.Ops Model.Resample.
 Import ListNotations.
